@@ -454,6 +454,33 @@ def check_seq_property(prop, tier, seed):
         else:
             for t in v["tags"]:
                 others[t] = others.get(t, 0) + 1
+    # "A call did not return" is the one verdict that rests on wall-clock time, so it is confirmed before it counts:
+    # the journalled case is re-executed alone with a ten-minute budget; if it completes, the worker was merely slow
+    # (loaded machine, large candidate sets) and the event is recorded as inconclusive, not as a hang.
+    unconfirmed_hangs = 0
+    confirmed = []
+    for c in res.crashes:
+        if c["what"] != "hang":
+            confirmed.append(c)
+            continue
+        jp = os.path.join(BUILD_ROOT, "work", "hang-%s-%d-%d.txt" % (prop, os.getpid(), len(confirmed)))
+        os.makedirs(os.path.dirname(jp), exist_ok=True)
+        with open(jp, "w") as f:
+            f.write(c["journal"])
+        still = False
+        try:
+            r = subprocess.run([build(c["flavour"] if c["flavour"] in FLAVOURS else "san", "seq_driver"), "--replay", jp, "--case-timeout", "240"],
+                               capture_output=True, text=True, timeout=600, env=dict(os.environ, **SAN_ENV))
+            still = r.returncode == 98
+        except subprocess.TimeoutExpired:
+            still = True
+        finally:
+            os.remove(jp)
+        if still:
+            confirmed.append(c)
+        else:
+            unconfirmed_hangs += 1
+    res.crashes = confirmed
     crash_kinds = {}
     for c in res.crashes:
         crash_kinds[c["what"]] = crash_kinds.get(c["what"], 0) + 1
@@ -518,6 +545,7 @@ def check_seq_property(prop, tier, seed):
         "cases_truncated_by_other_properties": others,
         "cases_aborted": crash_kinds,
         "aborted_cases_rejudged_in_plain_build": replayed_after_abort,
+        "slow_cases_taken_for_hangs_then_cleared_by_rerun": unconfirmed_hangs,
         "watchdog_fired": res.watchdog,
         "violation_tags_this_property": {t: n for t, n in res.tags.items() if t.startswith(prop + ".")},
         "unattributed": {t: n for t, n in res.tags.items() if t.startswith("UNATTRIBUTED")},
